@@ -61,6 +61,9 @@ type cScript struct {
 	// Deadline: the request context ends through a (virtual) deadline instead of cancel();
 	// every "cancel" action of the script then waits until the deadline has passed.
 	Deadline bool `json:"deadline,omitempty"`
+	// Route: "own" (a Client with every field set), "nilhttp" (a Client without HTTPClient: DefaultClient's
+	// is used), "pkg" (sse.NewConnection: everything is configured on DefaultClient)
+	Route string `json:"route,omitempty"`
 	// BufMax > 0: Connection.Buffer(nil, BufMax)
 	BufMax int `json:"buf_max,omitempty"`
 	// TimeoutTErrs: transport errors implement Timeout()/Temporary() returning true (a dial or
@@ -367,7 +370,25 @@ func runClient(t *testing.T, sc *cScript) (obs *cObs) {
 			}
 			retryIdx++
 		}
-		conn := cl.NewConnection(req)
+		saved := *sse.DefaultClient
+		defer func() { *sse.DefaultClient = saved }()
+		var conn *sse.Connection
+		switch sc.Route {
+		case "nilhttp":
+			sse.DefaultClient.HTTPClient = cl.HTTPClient
+			cl.HTTPClient = nil
+			conn = cl.NewConnection(req)
+		case "pkg":
+			sse.DefaultClient.HTTPClient = cl.HTTPClient
+			sse.DefaultClient.Backoff = cl.Backoff
+			sse.DefaultClient.OnRetry = cl.OnRetry
+			if cl.ResponseValidator != nil {
+				sse.DefaultClient.ResponseValidator = cl.ResponseValidator
+			}
+			conn = sse.NewConnection(req)
+		default:
+			conn = cl.NewConnection(req)
+		}
 		if sc.BufMax > 0 {
 			conn.Buffer(nil, sc.BufMax)
 		}
